@@ -485,6 +485,42 @@ Section Guards.
 End Guards.
 
 (** ---------------------------------------------------------------------------
+    Files that CHANGE during a history (a page is deployed, a public page gets an [!> allow-ips] line, a list is
+    edited ...).  A [world] is what the server reads at one moment: public files, error pages, template engine.  A history
+    is a list of (world, operation): every operation runs in the world of its moment — any sequence of worlds, so every
+    pattern of writes, deletions and renames between two operations is covered — while the response cache lives
+    through the whole history.  [fix_vary]: the admission test of [handle_vary_missing] (src/lib.rs; [false] = the code
+    before kvarn 8fe98d4, which pushed every computed variant into an item that is already cached). *)
+Record world := mkW {
+  wd_fs : bytes -> option bytes;
+  wd_err : N -> bytes;
+  wd_tmpl : list bytes -> bytes -> bytes }.
+
+Section Changing.
+  Variable fix_ext fix_lock fix_errline cors : bool.
+  Variable cache_on ims_on fix_vary fix_ovkey fix_clear fix_svary fix_qmkey fix_ims : bool.
+  Variable sfilter : N -> bool.
+  Variable parse_ims : bytes -> option Z.
+  Variable prime : request -> request.
+  Variable override : request -> option (bytes * option bytes).
+  Variable refuses : request -> fatx -> bool.
+  Variable vary_tuple : request -> option (bytes * option bytes) -> tuple.
+  Variable vary_header : request -> option (bytes * option bytes) -> fatx -> list (bytes * bytes).
+  Variable clear_alias : request -> option request.
+
+  Definition step_gw (w : world) (st : cachex * unit) (now : N) (o : opx) : (cachex * unit) * N * obsx :=
+    stepX unit (compute_g fix_ext fix_lock fix_errline cors (wd_fs w) (wd_err w) (wd_tmpl w)) cache_on ims_on fix_vary fix_ovkey
+          fix_clear fix_svary fix_qmkey fix_ims sfilter parse_ims sanitize_ok_g prime override
+          (negotiate_g (wd_err w) refuses) vary_tuple vary_header clear_alias st now o.
+
+  Fixpoint run_gw (st : cachex * unit) (now : N) (wops : list (world * opx)) : list obsx :=
+    match wops with
+    | [] => []
+    | (w, o) :: rest => let '(st', now', ob) := step_gw w st now o in ob :: run_gw st' now' rest
+    end.
+End Changing.
+
+(** ---------------------------------------------------------------------------
     Specification vocabulary (independent of the order in which the code does things). *)
 Definition entries_of (content : bytes) : list PresentLine.entry :=
   match PresentLine.present_parse content with
@@ -527,6 +563,15 @@ Definition reply_ok (fs : bytes -> option bytes) (secret : bytes) (prime : reque
   | XReq r, XbReply rp _ => leaks secret rp = true -> permitted fs (prime r)
   | _, _ => True
   end.
+
+(** ... with files that change: every world of the history keeps the secret inside guarded files, and a reply is judged by
+    the world of its own moment *)
+Definition world_ok (secret : bytes) (w : world) : Prop :=
+  (forall t c, wd_fs w t = Some c -> contains_sub secret c = true -> guarded t c = true) /\
+  (forall s, contains_sub secret (wd_err w s) = false) /\
+  (forall args b, contains_sub secret (wd_tmpl w args b) = true -> contains_sub secret b = true).
+Definition reply_ok_w (secret : bytes) (prime : request -> request) (wo : world * opx) (ob : obsx) : Prop :=
+  reply_ok (wd_fs (fst wo)) secret prime (snd wo) ob.
 
 (** every percent-encoded spelling of a byte string: position by position either the byte itself or
     [%XY] with each hex digit in either case ([None] = literal, [Some (u1, u2)] = encoded, upper case?) *)
@@ -707,12 +752,52 @@ Definition d_gop (x : xval) : option opx :=
 Definition g_prime (g : gconfig) : request -> request :=
   if g_default_ext g then uri_redirect else (fun r => r).
 
+(** operations of a scenario: those of the cache layer, and [(L (N 4) (B rel) (B content))]: the fixture (re)writes the
+    file [public/<rel>] between two requests (of several files of one name the last one written counts: [tree_insert]
+    puts the new node in front).  Only public files are rewritten: [read::file] never fills the file cache, so the
+    server holds the seeded file-cache entry if there is one and the new disk content otherwise. *)
+Inductive gop := GOp (o : opx) | GWrite (rel content : bytes).
+Definition d_gop_w (x : xval) : option gop :=
+  match x with
+  | XL [XN 4; XB rel; XB content] => Some (GWrite rel content)
+  | _ => option_map GOp (d_gop x)
+  end.
+Definition g_write (g : gconfig) (rel content : bytes) : gconfig :=
+  mkG (g_cache g) (g_default_ext g) (g_ims g) (g_files g ++ [(PUBLIC_SLASH ++ rel, content)]) (g_vary g) (g_report g) (g_phase g)
+      (g_fcache g) (g_fseed g).
+Definition world_of_g (g : gconfig) : world :=
+  let held := g_held g in mkW (fs_of held) (errpage_of held) (tmpl_of held).
+(** the world of every operation; a write is a change of the world and, for the cache layer, a wait of 0 ms *)
+Fixpoint g_wops (g : gconfig) (w : world) (ops : list gop) : list (world * opx) :=
+  match ops with
+  | [] => []
+  | GOp o :: rest => (w, o) :: g_wops g w rest
+  | GWrite rel content :: rest =>
+      let g' := g_write g rel content in
+      let w' := world_of_g g' in
+      (w', XWait 0) :: g_wops g' w' rest
+  end.
+(** the configuration at every operation (for the spec component) *)
+Fixpoint g_cfgs (g : gconfig) (ops : list gop) : list (gconfig * gop) :=
+  match ops with
+  | [] => []
+  | GOp o :: rest => (g, GOp o) :: g_cfgs g rest
+  | GWrite rel content :: rest => let g' := g_write g rel content in (g', GWrite rel content) :: g_cfgs g' rest
+  end.
+
 Definition run_gcfg (fix_ext fix_lock fix_errline : bool) (g : gconfig) (ops : list opx) : list obsx :=
   let held := g_held g in
   run_g fix_ext fix_lock fix_errline (g_default_ext g) (fs_of held) (errpage_of held) (tmpl_of held)
         (g_cache g) (g_ims g) true true true true true status_filter_drop parse_ims_fix
         (g_prime g) (override_x (g_default_ext g) None) (fun _ _ => false)
         (vary_tuple_x true (g_vary g)) (vary_header_x true (g_vary g)) clear_alias_fix [] (g_phase g) ops.
+
+Definition run_gcfg_w (fix_ext fix_lock fix_errline fix_vary : bool) (g : gconfig) (ops : list gop) : list obsx :=
+  run_gw fix_ext fix_lock fix_errline (g_default_ext g)
+         (g_cache g) (g_ims g) fix_vary true true true true true status_filter_drop parse_ims_fix
+         (g_prime g) (override_x (g_default_ext g) None) (fun _ _ => false)
+         (vary_tuple_x true (g_vary g)) (vary_header_x true (g_vary g)) clear_alias_fix ([], tt) (g_phase g)
+         (g_wops g (world_of_g g) ops).
 
 Definition obs_panicked (o : obsx) : bool :=
   match o with XbReply rp _ => rx_status rp =? 0 | _ => false end.
@@ -728,9 +813,9 @@ Definition x_gobs (report : list bytes) (o : obsx) : xval :=
 Definition run_guards_with (fix_ext fix_lock fix_errline : bool) (x : xval) : xval :=
   match x with
   | XL [c; XL ops] =>
-      match d_gconfig c, d_all d_gop ops with
+      match d_gconfig c, d_all d_gop_w ops with
       | Some g, Some ops' =>
-          let obs := run_gcfg fix_ext fix_lock fix_errline g ops' in
+          let obs := run_gcfg_w fix_ext fix_lock fix_errline true g ops' in
           if existsb obs_panicked obs then XL [XN 2]
           else XL (map (x_gobs (g_report g)) obs)
       | _, _ => bad_input
@@ -741,19 +826,19 @@ Definition run_guards := run_guards_with true true true.
 Definition run_guards_v0 := run_guards_with false false false.
 
 (** spec component: per operation, may the reply carry content of a guarded file?  (L (N 0/1) (B t))
-    for a request: [permitted_b] and the decoded path; (L) for other operations *)
+    for a request: [permitted_b] over what the server holds AT THAT MOMENT and the decoded path; (L) for other operations *)
 Definition run_guards_spec (x : xval) : xval :=
   match x with
   | XL [c; XL ops] =>
-      match d_gconfig c, d_all d_gop ops with
+      match d_gconfig c, d_all d_gop_w ops with
       | Some g, Some ops' =>
-          let fs := fs_of (g_held g) in
-          XL (map (fun o => match o with
-                            | XReq r0 => let r := g_prime g r0 in
-                                        XL [x_bool (permitted_b fs r);
-                                            XB (match served_file (rq_path r) with Ok (Some t) => t | _ => [] end)]
-                            | _ => XL []
-                            end) ops')
+          XL (map (fun go => match go with
+                             | (g1, GOp (XReq r0)) =>
+                                 let r := g_prime g1 r0 in
+                                 XL [x_bool (permitted_b (fs_of (g_held g1)) r);
+                                     XB (match served_file (rq_path r) with Ok (Some t) => t | _ => [] end)]
+                             | _ => XL []
+                             end) (g_cfgs g ops'))
       | _, _ => bad_input
       end
   | _ => bad_input
